@@ -130,9 +130,10 @@ def run(ctx):
             bad.append((k, "emitted octets break the rules of the declared encoding (line length / ASCII / bare CR LF / trailing blank)"))
     # the same through the builders: message body and single part, with and without a Content-Transfer-Encoding set on the builder first,
     # for strings, vectors and pre-encoded Body values: the field that is emitted must be the encoding the octets are in
-    pvals = [b"", b"Hello, world!\r\n", b"plain ascii line\nwith lone lf", "Café au lait\r\n".encode(), b"\xff\xfe binary \0", b"=equals= and trailing blank \r\n", b"x" * 1200]
+    pvals = [b"", b"Hello, world!\r\n", b"plain ascii line\nwith lone lf", "Café au lait\r\n".encode(), "Café\nau lait\nlone lf and 8-bit".encode(), b"\xff\xfe binary \0", b"=equals= and trailing blank \r\n", b"x" * 1200,
+             b"Subject: forwarded\r\n\r\nbody with 8-bit \xe9 and a lone\nLF\r\n"]
     pl, pmeta = [], []
-    for tgt in ("msg", "part"):
+    for tgt in ("msg", "part", "part:message/rfc822", "part:message/global", "part:application/octet-stream", "part:text/html; charset=utf-8"):
         for preset in ["-"] + ENCS:
             for v in pvals:
                 for kind in ["str", "vec"] + ["body:" + e for e in ENCS]:
@@ -150,9 +151,15 @@ def run(ctx):
         ctes = [l.split(b":", 1)[1].strip().decode("latin-1") for l in head.split(b"\r\n") if l.lower().startswith(b"content-transfer-encoding:")]
         if len(ctes) != 1:
             pbad.append((tgt, preset, kind, v, "%d Content-Transfer-Encoding fields" % len(ctes))); continue
-        if tgt == "part":
+        if tgt.startswith("part"):
             body = body[:-2] if body.endswith(b"\r\n") else body
         content = crlf_py(v) if kind == "str" else v
+        if kind in ("str", "vec"):
+            # asked for an encoding: that one or a refusal; not asked: one of the three the library chooses from
+            if preset != "-" and ctes[0] != preset:
+                pbad.append((tgt, preset, kind, v, "asked for %s, emitted as %s (an encoding that cannot carry the content is refused, not replaced)" % (preset, ctes[0]))); continue
+            if preset == "-" and ctes[0] not in ("7bit", "quoted-printable", "base64"):
+                pbad.append((tgt, preset, kind, v, "automatically chosen encoding is %s" % ctes[0])); continue
         if ctes[0] in ("7bit", "8bit", "binary"):
             if body != content:
                 pbad.append((tgt, preset, kind, v, "field says %s but the octets are not the content" % ctes[0]))
@@ -191,7 +198,7 @@ def run(ctx):
     ctx.cov["oracle"]["builders_emit_the_encoding_the_octets_are_in"] = {"cases": len(pl), "built": sum(1 for r in pres if r.startswith("ok\t")), "failures": len(pbad)}
     if pbad:
         tgt, preset, kind, v, why = pbad[0]
-        ctx.violation({"kind": "oracle", "entry": "%s builder .body(%s) with Content-Transfer-Encoding %s set first" % ("Message" if tgt == "msg" else "SinglePart", kind, preset), "line": "body.part\t%s\t%s\t%s\t%s" % (tgt, preset, kind, hx(v)), "what": why, "failures": len(pbad)})
+        ctx.violation({"kind": "oracle", "entry": "%s builder .body(%s) with Content-Transfer-Encoding %s set first" % ("Message" if tgt == "msg" else "SinglePart (%s)" % tgt, kind, preset), "line": "body.part\t%s\t%s\t%s\t%s" % (tgt, preset, kind, hx(v)), "what": why, "failures": len(pbad)})
     if diffs and not ctx.violations:
         k = min(diffs, key=lambda t: len(meta[t][0]))
         ctx.violation({"kind": "correspondence", "line": lines[k][:4000], "impl": impl[k][:600], "model": model[k][:600], "disagreements": len(diffs)}, nofail=True)
